@@ -23,6 +23,13 @@ TRUSTED_REASONS = {
     'external_body: spec_le_pair': 'lexicographic <= on (usize, usize) = derived Ord of tuples',
     'external_body: sort_key_def': 'binds sort_key::<Lint,(usize,usize)> to key_of, the function the closure ensures it computes',
     'external_body: ext_seq_iter': 'an Iterator yields its remaining() elements (vstd iterator model)',
+    'assume_specification: char::is_ascii_alphabetic': 'total pure bool (no postcondition)',
+    'assume_specification: <[T]>::contains': 'total pure bool (no postcondition)',
+    'external_body: lex_hostname': 'split()-based scanner: contract Some(n) ==> n <= len assumed; Kani harness lexing.hostname_4 (bounded)',
+    'external_body: lex_hostport': 'enumerate().find(): contract Some(n) ==> n <= len assumed; reached by Kani harness lexing.url_4 (bounded)',
+    'external_body: validate_scheme': 'iter().all(): arbitrary total bool',
+    'external_body: lex_ip_schemepart': 'slice pattern; contract assumed; Kani harness lexing.url_4 (bounded)',
+    'external_body: clone': 'the derived Clone of Token returns an equal value',
     # --- opaque data / total predicates with NO postcondition ---
     'external_body: is_': 'TokenKind/char predicate used only as an arbitrary total bool',
     'external_body: to_string': 'only inside a panic! message that is proved unreachable',
